@@ -51,6 +51,10 @@ def skeletons(tier="thorough"):
         L.append(("compound-compound-same-id", N("All", N("Any", K(1, F.V("y", -2, 2), F.V("z", -3, 3)), c(), id="B"), N("Any", K(2, F.V("y", -2, 2), F.V("z", -3, 3)), d(), id="C"), id="A")))
     L.append(("self-reference", N("Any", a(), N("Any", b(), F.V("A"), id="B"), id="A")))
     L.append(("self-reference", N("Any", a(), N("Any", b(), N("All", c(), F.V("B"), id="C"), id="B"), id="A")))
+    # cycles that no tree path shows: siblings referring to each other, a ring among siblings, a reference that precedes the definition it closes a ring with
+    L.append(("self-reference", N("All", N("All", F.V("C"), a(), id="B"), N("All", F.V("B"), b(), id="C"), id="A")))
+    L.append(("self-reference", N("All", N("Any", F.V("C"), a(), id="B"), N("Any", F.V("D"), b(), id="C"), N("Any", F.V("B"), c(), id="D"), id="A")))
+    L.append(("self-reference", N("All", N("Any", F.V("Q"), a(), id="P"), N("Any", F.V("A"), b(), id="Q"), id="A")))
     L.append(("duplicate-child", N("Any", a(), N("All", b(), {"t": "var", "id": "b", "occ": 2, "lo": 0, "hi": 1}, id="B"), id="A")))
     L.append(("duplicate-child", N("All", N("Any", a(), b(), id="B"), N("Any", a(), b(), id="B"), id="A")))
     L.append(("identical-sharing", N("Any", N("All", N("Any", a(), b(), id="S"), c(), id="B"), N("All", N("Any", a(), b(), id="S"), d(), id="C"), id="A")))
@@ -122,7 +126,7 @@ def _leaf_compound_clash(spec):
     occ = wd.occurrences(spec)
     leaf_ids = {o["id"] for o in occ if o["kind"] == "leaf"}
     cmp_ids = {o["id"] for o in occ if o["kind"] == "cmp" and o["id"] is not None}
-    return bool(leaf_ids & cmp_ids) and not wd.cyclic(spec)
+    return bool(leaf_ids & cmp_ids) and not wd.cyclic(spec) and not wd.graph_cyclic(spec)
 
 
 def _requery(ns, spec, run):
